@@ -32,6 +32,10 @@ func (c *Conversation) verifySMP4(s3 *smp3State, msg smp4Message) error {
 		return newOtrError("Rb is an invalid group element")
 	}
 
+	if !isExponent(msg.d7) {
+		return newOtrError("D7 is an invalid exponent")
+	}
+
 	if !verifyZKP4(msg.cr, s3.g3b, msg.d7, s3.qaqb, msg.rb, 8, c.version) {
 		return newOtrError("cR is not a valid zero knowledge proof")
 	}
